@@ -318,7 +318,7 @@ func (u *Upstream) run(isResume bool) error {
 						DataPointGroups: dpg,
 					},
 				}
-				resultCh := make(chan *message.UpstreamChunkResult)
+				resultCh := make(chan *message.UpstreamChunkResult, 1) // buffered: processResult must never wait for a receiver that timed out
 				u.mu.Lock()
 				u.upstreamChunkResultChs[chunk.StreamChunk.SequenceNumber] = resultCh
 				u.mu.Unlock()
@@ -484,7 +484,7 @@ func (u *Upstream) flush(ctx context.Context) error {
 		return err
 	}
 
-	resultCh := make(chan *message.UpstreamChunkResult)
+	resultCh := make(chan *message.UpstreamChunkResult, 1) // buffered: processResult must never wait for a receiver that timed out
 	u.upstreamChunkResultChs[msgChunk.StreamChunk.SequenceNumber] = resultCh
 	go u.sendChunkAndWaitAck(ctx, msgChunk, resultCh)
 	return nil
